@@ -177,6 +177,29 @@ def _run_entry(kind, ext, data, entry, tmpdir):
         except Exception as e:
             out["exc"] = obs.exc_record(e, n)
         out["n"] = n
+    elif entry == "attachment":
+        # the input as a named, typed attachment of an .eml: EmailContent.iterate_supported_attachments() is an entry point too
+        import mimetypes
+        from email.message import EmailMessage
+        from email import policy
+        m = EmailMessage()
+        m["From"], m["To"], m["Subject"] = "Sender <sender@example.org>", "rcpt@example.org", "carrier"
+        m["Date"], m["Message-ID"] = "Mon, 01 Jan 2024 10:00:00 +0000", "<carrier@example.org>"
+        m.set_content("body\n")
+        ctype = mimetypes.guess_type("in" + ext)[0] or "application/octet-stream"
+        m.add_attachment(data, maintype=ctype.split("/")[0], subtype=ctype.split("/", 1)[1], filename="in" + ext)
+        n = 0
+        out["attachments_seen"] = 0
+        try:
+            for mail in obs.extractor("eml")(io.BytesIO(m.as_bytes(policy=policy.SMTP)), "dir/carrier.eml"):
+                out["attachments_seen"] += len(mail.attachments)
+                out["attachment_supported"] = [bool(a.is_supported_mime_type) for a in mail.attachments]
+                for r in mail.iterate_supported_attachments():
+                    n += 1
+                    texts.append((r.get_full_text(), [u.get_text() for u in r.iterate_units()], [obs.sha1(i.get_bytes().read()) for i in r.iterate_images()]))
+        except Exception as e:
+            out["exc"] = obs.exc_record(e, n)
+        out["n"] = n
     else:
         p = os.path.join(tmpdir, "in" + ext)
         with open(p, "wb") as f:
@@ -215,7 +238,7 @@ def work(case):
     kind, ext, plain, variant, expect_enc = build_pair(case)
     res = {"expect_encrypted": expect_enc, "kind": kind, "plain": {}, "variant": {}}
     with tempfile.TemporaryDirectory(prefix="verif-c08-") as td:
-        for entry in ("direct", "read_file", "cli"):
+        for entry in ("direct", "read_file", "cli", "attachment"):
             if plain is not None:
                 res["plain"][entry] = _run_entry(kind, ext, plain, entry, td)
             res["variant"][entry] = _run_entry(kind, ext, variant, entry, td)
@@ -226,7 +249,7 @@ def encrypt_work(case):
     """Separate pool task: encrypt a generated PDF with pypdf's writer over the reference AES (the repository is not involved)."""
     from vlib.gen import pdfenc, pdfw
     plain, _ = pdfw.build_pdf(case["seed"], case.get("feature"))
-    enc = pdfenc.encrypt_pdf(plain, case["alg"], case["pw"])
+    enc = pdfenc.encrypt_pdf(plain, case["alg"], case["pw"], **({"owner_password": case["owner"]} if "owner" in case else {}))
     return {"plain_b64": core.b64(plain), "variant_b64": core.b64(enc)}
 
 
@@ -269,11 +292,15 @@ def gen_cases(run):
                 continue        # the R6 key derivation costs seconds per file with pure-Python AES on both sides
             for pw in ("", "s3cret"):
                 jobs.append({"seed": base + r, "feature": feat, "alg": alg, "pw": pw})
+            if alg != "AES-256":
+                # the owner password left at its default, which is the user password: both empty (opens without a prompt)
+                jobs.append({"seed": base + r, "feature": feat, "alg": alg, "pw": "", "owner": ""})
+                jobs.append({"seed": base + r, "feature": feat, "alg": alg, "pw": "s3cret", "owner": "s3cret"})
     for job, ob in pool.run_cases("checks.c08:encrypt_work", jobs, deadline_s=300):
         if "variant_b64" not in ob:
             run.inconclusive(f"could not encrypt a generated PDF with {job['alg']}: {str(ob)[:200]}")
             continue
-        yield mk(mech="pdf", fmt="pdf", variant=f"{job['alg']}:{'empty' if not job['pw'] else 'nonempty'}-user-password", seed=job["seed"],
+        yield mk(mech="pdf", fmt="pdf", variant=f"{job['alg']}:{'empty' if not job['pw'] else 'nonempty'}-user-password{'+same-owner-password' if 'owner' in job else ''}", seed=job["seed"],
                  plain_b64=ob["plain_b64"], variant_b64=ob["variant_b64"], expect_encrypted=bool(job["pw"]))
     for p in core.fixtures(include_protected=True):
         if "password_protected" in p.parts:
@@ -315,8 +342,17 @@ def main(run):
                 seen.add(key)
                 run.violation(key, f"{label} (seed {case['seed']}): {detail}", rep)
         exp_enc = ob["expect_encrypted"]
-        for entry in ("direct", "read_file", "cli"):
-            pv, vv = ob["plain"].get(entry), ob["variant"][entry]
+        for entry in ("direct", "read_file", "cli", "attachment"):
+            pv, vv = ob["plain"].get(entry), ob["variant"].get(entry)
+            if vv is None:
+                continue
+            if entry == "attachment":
+                # judged only where the attachment route exists for this type: the library itself calls the attachment's MIME type
+                # supported, and (where there is a plain twin) the twin came out through the same route
+                routed = any(vv.get("attachment_supported") or []) and (pv is None or (pv.get("n", 0) >= 1 and not pv.get("exc")))
+                if not routed:
+                    continue
+                run.count("pairs_judged_through_attachment_iterator")
             # the plain member must never be rejected as encrypted
             if pv is not None:
                 if entry != "cli":
@@ -352,11 +388,12 @@ def main(run):
                     elif pv is not None and vv.get("digest") != pv.get("digest"):
                         v("content-differs-from-unencrypted-original", f"via {entry}: text/units/images differ from the plain original")
         mechs[f"{mech}:{fmt}"] = mechs.get(f"{mech}:{fmt}", 0) + 1
-        outcomes = ",".join(f"{e}:{(ob['variant'][e].get('exc') or {}).get('name', ob['variant'][e].get('cli_exit', 'ok'))}" for e in ("direct", "read_file", "cli"))
+        outcomes = ",".join(f"{e}:{(ob['variant'][e].get('exc') or {}).get('name', ob['variant'][e].get('cli_exit', 'ok'))}" for e in ("direct", "read_file", "cli", "attachment") if e in ob["variant"])
         run.case(f"{label}:{outcomes}:{','.join(sorted(seen))}", sample={"mechanism": mech, "format": fmt, "variant": variant, "expect_encrypted": exp_enc, "outcomes": outcomes, "violations": sorted(seen)} if case["id"] % 23 == 0 else None)
     run.extras["pairs_per_mechanism"] = mechs
     run.count("mechanism_format_combinations", len(mechs))
     run.require("mechanism_format_combinations", len(mechs), 20)
+    run.require("pairs_judged_through_attachment_iterator", run.counters.get("pairs_judged_through_attachment_iterator", 0), 40)
 
 
 def replay(run, doc):
